@@ -6,6 +6,12 @@ package main
 // out: dec=err | dec=ok blk=<span> hdr=<span> tx=<n>|B<span> W<span> M<span> O<span>,...|... h=<ok|bad:..>
 // op:  enc <kind> <era> <description> <hex>      kind = blk | hdr | body | wit | out
 // out: dec=err | enc=ok | enc=bad:<first failing component>
+// op:  tx <era> <description> <hex of a standalone transaction>   (ledger.NewTransactionFromCbor)
+// out: dec=err | dec=ok tx=<span>|B<span> W<span> M<span|-> O<span>,... h=<ok|bad> enc=<ok|bad>
+// op:  body <era> <description> <hex of a standalone transaction body>  (ledger.NewTransactionBodyFromCbor)
+// out: dec=err | dec=ok body=<span> O<span>,... h=<ok|bad>
+// op:  hdr <era> <description> <hex of a standalone block header>  (ledger.NewBlockHeaderFromCbor)
+// out: dec=err | dec=ok hdr=<span> h=<ok|bad> enc=<ok|bad>
 //
 // A <span> is "o+l" when the component's stored bytes (Cbor()) are exactly
 // data[o:o+l], where [o,o+l) is the component's span found by the harness' own
@@ -20,6 +26,7 @@ import (
 	"fmt"
 	"reflect"
 	"strings"
+	"time"
 
 	"github.com/blinklabs-io/gouroboros/cbor"
 	"github.com/blinklabs-io/gouroboros/ledger"
@@ -28,7 +35,8 @@ import (
 )
 
 func init() {
-	register(&Prop{ID: "C01", Gen: genC01, Run: runC01})
+	// generous per-op deadline: verdicts must not depend on machine load
+	register(&Prop{ID: "C01", Gen: genC01, Run: runC01, Timeout: 3 * time.Minute})
 }
 
 func genC01(r *Rand, n int, tier string, emit func(string)) {
@@ -36,7 +44,9 @@ func genC01(r *Rand, n int, tier string, emit func(string)) {
 	r2 := NewRand(r.U64() ^ 0xC01)
 	kinds := []string{"blk", "hdr", "body", "wit", "out"}
 	i := 0
-	genC07(r2, n, tier, func(op string) {
+	nStandalone := n / 4
+	g10bGenStandalone(r2, nStandalone, emit)
+	genC07(r2, n-nStandalone, tier, func(op string) {
 		i++
 		if i%3 == 0 && strings.HasPrefix(op, "blk ") {
 			emit("enc " + kinds[(i/3)%5] + " " + op[4:])
@@ -106,6 +116,9 @@ func fieldPtr(obj any, name string) any {
 
 func runC01(op string) string {
 	f := strings.Fields(op)
+	if len(f) == 4 && (f[0] == "tx" || f[0] == "hdr" || f[0] == "body") {
+		return g10bRunStandalone(f)
+	}
 	encKind := ""
 	if len(f) == 5 && f[0] == "enc" {
 		encKind = f[1]
@@ -203,5 +216,237 @@ func runC01(op string) string {
 		h = "bad:" + strings.Join(hbad, ",")
 	}
 	fmt.Fprintf(&sb, " h=%s", h)
+	return sb.String()
+}
+
+var g10bTxType = map[string]uint{
+	"byron": 0, "shelley": 1, "allegra": 2, "mary": 3, "alonzo": 4, "babbage": 5, "conway": 6, "dijkstra": 7,
+}
+
+// g10bTxEnvelope builds the standalone encoding of transaction i of a block tree.
+func g10bTxEnvelope(era string, root *bnode, i int) *bnode {
+	null := &bnode{major: 7, payload: []byte{0xf6}}
+	switch era {
+	case "byron":
+		return root.kid(1).kid(0).kid(i)
+	case "dijkstra":
+		return root.kid(1).kid(1).kid(i)
+	}
+	body, wit := root.kid(1).kid(i), root.kid(2).kid(i)
+	if body == nil || wit == nil {
+		return nil
+	}
+	aux := root.kid(3).mapGet(uint64(i))
+	if aux == nil {
+		aux = null
+	}
+	switch era {
+	case "shelley", "allegra", "mary":
+		return &bnode{major: 4, kids: []*bnode{body, wit, aux}}
+	}
+	return &bnode{major: 4, kids: []*bnode{body, wit, {major: 7, payload: []byte{0xf5}}, aux}}
+}
+
+func g10bGenStandalone(r *Rand, n int, emit func(string)) {
+	fx, err := fixtures()
+	if err != nil {
+		return
+	}
+	for c := 0; c < n; c++ {
+		f := fx[r.Intn(len(fx))]
+		root, err := parseCborAll(f.data)
+		if err != nil {
+			continue
+		}
+		var node *bnode
+		kind := "tx"
+		if r.Chance(1, 4) {
+			kind = "hdr"
+			node = root.kid(0)
+		} else if f.era != "byron" && r.Chance(1, 3) {
+			// standalone transaction body (Byron has no body decoder)
+			kind = "body"
+			var bodies *bnode
+			if f.era == "dijkstra" {
+				if t := root.kid(1).kid(1); t != nil && len(t.kids) > 0 {
+					bodies = &bnode{major: 4}
+					for _, tx := range t.kids {
+						bodies.kids = append(bodies.kids, tx.kid(0))
+					}
+				}
+			} else {
+				bodies = root.kid(1)
+			}
+			if bodies == nil || len(bodies.kids) == 0 {
+				continue
+			}
+			node = bodies.kids[r.Intn(len(bodies.kids))]
+		} else {
+			ntx := 0
+			switch f.era {
+			case "byron":
+				ntx = len(root.kid(1).kid(0).kids)
+			case "dijkstra":
+				if t := root.kid(1).kid(1); t != nil {
+					ntx = len(t.kids)
+				}
+			default:
+				ntx = len(root.kid(1).kids)
+			}
+			if ntx == 0 {
+				continue
+			}
+			node = g10bTxEnvelope(f.era, root, r.Intn(ntx))
+		}
+		if node == nil {
+			continue
+		}
+		var desc []string
+		switch r.Intn(4) {
+		case 0:
+		case 1:
+			form := c07Forms[r.Intn(5)]
+			node.setForm(form)
+			desc = append(desc, "top:"+form)
+		default:
+			depth := Pick(r, 1, 2, 3, 4, 6)
+			den := Pick(r, 1, 2, 4)
+			for _, c := range collect(node, depth, isContainer) {
+				if r.Chance(1, den) {
+					form := c07Forms[r.Intn(6)]
+					c.n.setForm(form)
+					if len(desc) < 8 {
+						desc = append(desc, c.path+":"+form)
+					}
+				}
+			}
+			desc = append(desc, fmt.Sprintf("many(d%d,1/%d)", depth, den))
+		}
+		d := strings.Join(desc, ",")
+		if d == "" {
+			d = "orig"
+		}
+		emit(fmt.Sprintf("%s %s %s %s", kind, f.era, d, hexs(node.bytes())))
+	}
+}
+
+func g10bRunStandalone(f []string) string {
+	era := f[1]
+	data, ok := unhex(f[3])
+	if !ok {
+		return "bad-op"
+	}
+	root, perr := parseCborAll(data)
+	if perr != nil {
+		return "dec=err"
+	}
+	okbad := func(b bool) string {
+		if b {
+			return "ok"
+		}
+		return "bad"
+	}
+	if f[0] == "hdr" {
+		bt, ok := eraBlockType[era]
+		if !ok {
+			return "bad-op"
+		}
+		hdr, err := ledger.NewBlockHeaderFromCbor(bt, data)
+		if err != nil {
+			return "dec=err"
+		}
+		pre := hdr.Cbor()
+		if era == "byron" {
+			pre = append([]byte{0x82, 0x01}, pre...)
+		}
+		return fmt.Sprintf("dec=ok hdr=%s h=%s enc=%s", spanOrBad(data, root, hdr.Cbor()),
+			okbad(hdr.Hash() == sum256(pre)), okbad(encEq(hdr, data)))
+	}
+	tt, ok := g10bTxType[era]
+	if !ok {
+		return "bad-op"
+	}
+	if f[0] == "body" {
+		body, err := ledger.NewTransactionBodyFromCbor(tt, data)
+		if err != nil {
+			return "dec=err"
+		}
+		var sb strings.Builder
+		fmt.Fprintf(&sb, "dec=ok body=%s O", spanOrBad(data, root, body.Cbor()))
+		var on []*bnode
+		if o := root.mapGet(1); o != nil {
+			on = o.kids
+		}
+		outs := body.Outputs()
+		if len(outs) != len(on) {
+			fmt.Fprintf(&sb, "!n%d", len(outs))
+		} else {
+			for j, o := range outs {
+				if j > 0 {
+					sb.WriteByte(',')
+				}
+				sb.WriteString(spanOrBad(data, on[j], o.Cbor()))
+			}
+		}
+		fmt.Fprintf(&sb, " h=%s", okbad(body.Id() == sum256(data)))
+		return sb.String()
+	}
+	tx, err := ledger.NewTransactionFromCbor(tt, data)
+	if err != nil {
+		return "dec=err"
+	}
+	bn, wn := root.kid(0), root.kid(1)
+	var an *bnode
+	var on []*bnode
+	switch era {
+	case "byron":
+		if o := bn.kid(1); o != nil {
+			on = o.kids
+		}
+	default:
+		an = root.kid(len(root.kids) - 1)
+		if era != "dijkstra" && len(root.kids) < 3 {
+			an = nil
+		}
+		if an != nil && an.major == 7 {
+			an = nil
+		}
+		if o := bn.mapGet(1); o != nil {
+			on = o.kids
+		}
+	}
+	var sb strings.Builder
+	body, _ := fieldCbor(tx, "Body")
+	wit, okw := fieldCbor(tx, "WitnessSet")
+	if !okw {
+		wit, _ = fieldCbor(tx, "twitCbor")
+	}
+	fmt.Fprintf(&sb, "dec=ok tx=%s|B%s W%s", spanOrBad(data, root, tx.Cbor()), spanOrBad(data, bn, body), spanOrBad(data, wn, wit))
+	var raw []byte
+	if aux := tx.AuxiliaryData(); aux != nil {
+		raw = aux.Cbor()
+	}
+	switch {
+	case an == nil && len(raw) == 0:
+		sb.WriteString(" M-")
+	case an == nil:
+		fmt.Fprintf(&sb, " M!%d", len(raw))
+	default:
+		fmt.Fprintf(&sb, " M%s", spanOrBad(data, an, raw))
+	}
+	sb.WriteString(" O")
+	outs := tx.Outputs()
+	if len(outs) != len(on) {
+		fmt.Fprintf(&sb, "!n%d", len(outs))
+	} else {
+		for j, o := range outs {
+			if j > 0 {
+				sb.WriteByte(',')
+			}
+			sb.WriteString(spanOrBad(data, on[j], o.Cbor()))
+		}
+	}
+	hok := body != nil && tx.Hash() == sum256(body) && tx.Id() == sum256(body)
+	fmt.Fprintf(&sb, " h=%s enc=%s", okbad(hok), okbad(encEq(tx, data)))
 	return sb.String()
 }
